@@ -150,7 +150,7 @@ META = {
     "C03": dict(text="Theorems: a rejected DeliverTx leaves nonces, coins, owners, checks, multisigs, frozen funds untouched and changes exactly one balance - the payer's (sender / check issuer) gas-coin balance - by min(balance, failure fee), credited to the reward pool; an accepted one had the next nonce and advances exactly its sender's nonce by one; Run yields effects only after all checks passed. " + LM,
                 note="Node-level frame monitor (c03node): for EVERY transaction kind of the workload (33 kinds, malformed bytes included) a rejected transaction that is the only one of its block leaves the export unchanged except for one account entry (the fee payer) and the block-level bookkeeping (accrued rewards, gas limit), on histories whose delegators also sit on the waitlist of the same candidate; fees paid in custom coins and sell-all kinds are left to the model. " + LN + "Found and repaired with this check: f5184b1 (CreateToken with gas price 0 was applied and then reported as failed).",
                 technique="Coq proof (case analysis over Run by Ltac, effect-list algebra) + differential correspondence on the real node + frame monitors"),
-    "C04": dict(text="Theorems: acceptance implies chain id = network and nonce = last + 1; nonces never decrease along any history; once accepted, the same transaction or any transaction of that sender with a nonce not above it is rejected with the state untouched after any further history. " + LM + "The harness re-delivers earlier bytes, stale and future nonces. Node-level monitors for all 33 transaction kinds (c04node): an accepted transaction leaves its sender at exactly its nonce, and the signed bytes of an accepted transaction are never accepted again (same block, later blocks).",
+    "C04": dict(text="Theorems: a transaction signed for another chain id is refused by check and deliver alike and changes nothing (C04_foreign_chain_rejected); acceptance implies chain id = network and nonce = last + 1; nonces never decrease along any history; once accepted, the same transaction or any transaction of that sender with a nonce not above it is rejected with the state untouched after any further history. " + LM + "The harness re-delivers earlier bytes, stale and future nonces. Node-level monitors for all 33 transaction kinds (c04node): an accepted transaction leaves its sender at exactly its nonce, and the signed bytes of an accepted transaction are never accepted again (same block, later blocks).",
                 note=LN, technique="Coq proof (monotone nonce invariant over histories) + differential correspondence on the real node + replay monitors"),
     "C05": dict(text="Theorems: if any delivered transaction (accepted or rejected) decreases a balance of account a, the multisig gate passed and a is the sender or the issuer of the redeemed check; the multisig gate means: account exists, <= 32 and <= #owners signatures, all recoverable and distinct, uint32 weight sum of listed owners >= threshold. " + LM + "Candidate settings (Model/CandAuth.v, the two authorization checks of edit_candidate.go): along every history of EditCandidate / EditCandidateCommission / SetCandidateOn / SetCandidateOff the settings change only by the owner recorded right before the transaction and the switch flips only by that owner or control address, anybody else gets code 406 and changes nothing (C05_candidate_settings_by_owner_only, C05_candidate_unauthorized_rejected); tie: model 21 on every such transaction of node histories in which owners hand the control address to other accounts, which then try the owner-only operations (accepted => authorized, 406 => not). Monitors on the node: every balance decrease is attributable to the sender/payer; candidate-authorization monitor.",
                 note=LN + "Of the candidate transactions only the authorization decision and the changed fields are modelled (their other checks are an oracle bit); EditCandidatePublicKey and the vote transactions are not. Stakes, waitlist, orders: node-level monitors of C14/C16/C18.",
